@@ -437,7 +437,7 @@ func genC11Ask(t *rapid.T) c11Ask {
 	n := rapid.IntRange(0, 14).Draw(t, "n")
 	es := make([]enrSpec, n)
 	for i := range es {
-		es[i] = enrSpec{Kind: rapid.SampledFrom([]string{"ok", "ok", "ok", "ok", "badsig", "lowport", "noport", "noip", "loopback", "lan", "garbage", "repeat"}).Draw(t, "kind"),
+		es[i] = enrSpec{Kind: rapid.SampledFrom([]string{"ok", "ok", "ok", "ok", "badsig", "lowport", "noport", "noip", "loopback", "lan", "garbage", "repeat", "sigreuse", "sigreuse"}).Draw(t, "kind"),
 			KeyIdx:   100 + rapid.IntRange(0, 60).Draw(t, "key"),
 			Port:     rapid.SampledFrom([]int{1025, 1026, 9000, 30303, 65535}).Draw(t, "port"),
 			RepeatOf: rapid.IntRange(0, 13).Draw(t, "rep"),
@@ -472,6 +472,37 @@ func buildEnr(s enrSpec, built [][]byte) []byte {
 			return s.Garbage
 		}
 		return built[s.RepeatOf%len(built)]
+	case "sigreuse":
+		// an earlier record of this reply again, with a usable port and a higher sequence number, under the signature
+		// of the original: whatever the node thought of the original, this one is not validly signed
+		if len(built) == 0 {
+			return s.Garbage
+		}
+		var elems []rlp.RawValue
+		if rlp.DecodeBytes(built[s.RepeatOf%len(built)], &elems) != nil || len(elems) < 4 {
+			return s.Garbage
+		}
+		var seq uint64
+		if rlp.DecodeBytes(elems[1], &seq) != nil {
+			return s.Garbage
+		}
+		elems[1], _ = rlp.EncodeToBytes(seq + 1)
+		udpKey, _ := rlp.EncodeToBytes("udp")
+		port, _ := rlp.EncodeToBytes(uint16(30303))
+		replaced := false
+		for i := 2; i+1 < len(elems); i += 2 {
+			if bytes.Equal(elems[i], udpKey) {
+				elems[i+1], replaced = port, true
+			}
+		}
+		if !replaced {
+			elems = append(elems, udpKey, port) // "udp" sorts behind id, ip and secp256k1
+		}
+		out, err := rlp.EncodeToBytes(elems)
+		if err != nil {
+			return s.Garbage
+		}
+		return out
 	}
 	seq := s.Seq
 	if seq == 0 {
